@@ -41,8 +41,8 @@ use std::sync::{Arc, Condvar, Mutex, Once};
 use std::time::{Duration, Instant};
 
 /// how often each oracle's premise held (printed to stderr when `KV_ORACLE_STATS` is set)
-static CHECKS: [AtomicUsize; 8] = [const { AtomicUsize::new(0) }; 8];
-const CHECK_NAMES: [&str; 8] = [
+static CHECKS: [AtomicUsize; 9] = [const { AtomicUsize::new(0) }; 9];
+const CHECK_NAMES: [&str; 9] = [
 	"side_by_side_proc_calls",
 	"side_by_side_frames_rendered",
 	"position_within_a_frame",
@@ -51,6 +51,7 @@ const CHECK_NAMES: [&str; 8] = [
 	"thread_ends_after_stopped",
 	"gapped_walk_frames",
 	"proc_calls_not_comparable",
+	"thread_ends_after_abandoned",
 ];
 fn tick(i: usize, n: usize) {
 	CHECKS[i].fetch_add(n, Ordering::Relaxed);
@@ -550,9 +551,9 @@ fn decode_idx(r: &Run, f: Frame) -> Option<Option<usize>> {
 	Some(Some(abs - r.slice_start))
 }
 
-/// let a held thread go at the end of a case: stop the sound if that is still possible (then the thread
-/// ends), otherwise leave it parked at its gate (an abandoned sound's thread never ends — the C10 finding —
-/// and a parked thread costs no CPU)
+/// let a held thread go at the end of a case: stop the sound if that is still possible, otherwise drop it
+/// (abandon it): either way the thread ends within 3 gate-to-gate stretches. (On the unrepaired code an
+/// abandoned sound's thread never ended: such a thread is left parked at its gate, where it costs no CPU.)
 fn cleanup(r: &mut Run) {
 	if let Some(g) = r.gate.take() {
 		if r.probe.dropped.load(Ordering::SeqCst) {
@@ -575,6 +576,15 @@ fn cleanup(r: &mut Run) {
 		if stopped {
 			g.set_free();
 			wait_until(Duration::from_secs(2), || r.probe.dropped.load(Ordering::SeqCst));
+		} else {
+			r.tsound = None;
+			r.place = Place::Abandoned;
+			for _ in 0..3 {
+				if r.probe.dropped.load(Ordering::SeqCst) {
+					break;
+				}
+				g.grant(&r.probe);
+			}
 		}
 	}
 }
@@ -798,7 +808,11 @@ fn exec(case: &[String], out: &mut Out) {
 				} else {
 					let g = r.gate.clone().expect("tstep before tstart");
 					let stopped_before = r.thandle.as_ref().map(|h| h.state() == PlaybackState::Stopped).unwrap_or(false);
+					let abandoned_before = r.place == Place::Abandoned;
+					let gone_before = r.probe.dropped.load(Ordering::SeqCst);
 					let mut steps = 0;
+					// the thread was released from the `before_error_push` gate and came back to a gate instead of ending
+					let mut looped_after_error = false;
 					for _ in 0..n {
 						if r.probe.dropped.load(Ordering::SeqCst) {
 							break;
@@ -806,14 +820,18 @@ fn exec(case: &[String], out: &mut Out) {
 						let was = g.at();
 						g.grant(&r.probe);
 						steps += 1;
+						if was == At::Err {
+							// the stretch after this gate pushes the error and stores the flag (then `break`s)
+							r.flag_set = true;
+						}
 						if r.probe.dropped.load(Ordering::SeqCst) {
 							break;
 						}
+						if was == At::Err {
+							looped_after_error = true;
+						}
 						if g.at() == At::Err {
 							r.erred = true;
-						}
-						if was == At::Err {
-							r.flag_set = true;
 						}
 					}
 					let pc = if r.probe.dropped.load(Ordering::SeqCst) {
@@ -829,11 +847,23 @@ fn exec(case: &[String], out: &mut Out) {
 					};
 					out.put(format!("pc={} {}", pc, show_t(r)));
 					// --- C10: a Stopped sound's thread ends within 2 of its gate-to-gate stretches ---
-					if stopped_before && steps >= 2 {
+					if stopped_before && !gone_before && (steps >= 2 || pc == "ended") {
 						tick(5, 1);
 					}
 					if stopped_before && steps >= 2 && pc != "ended" {
 						out.oracle_fail("decthread_thread_did_not_end_after_stopped", l);
+					}
+					// --- C10: … and so does the thread of a sound that was dropped (refused by a full track, discarded
+					// with its track or manager) ---
+					if abandoned_before && !gone_before && steps >= 1 {
+						tick(8, 1);
+						if pc != "ended" {
+							out.oracle_fail("decthread_thread_did_not_end_after_abandoned", l);
+						}
+					}
+					// --- C10: after reporting an error the thread ends: the failing decoder is not called again ---
+					if looped_after_error {
+						out.oracle_fail("decthread_thread_looped_after_error", l);
 					}
 				}
 			}
@@ -1165,10 +1195,14 @@ fn rt_scenario(tok: &[&str], out: &mut Out, l: &str) {
 			}
 			if !wait_until(Duration::from_millis(arg(2, 400)), || probe.dropped.load(Ordering::SeqCst)) {
 				out.oracle_fail("decthread_thread_never_ends", format!("rejected_by_full_track threads=+{} {}", thread_count().saturating_sub(base), l));
+			} else if !wait_until(Duration::from_millis(1500), || thread_count() <= base) {
+				out.oracle_fail("decthread_thread_count_above_baseline", format!("rejected_by_full_track {}", l));
 			}
 			drop(mgr);
 		}
-		// the sound's sub-track is dropped (removed at the next callback), the handle too
+		// the sound's sub-track is dropped (removed from the mixer at the next callback; kira frees a removed
+		// track — and with it its sounds — on the gameplay thread, the next time a sub-track is added to the same
+		// parent or when the manager goes), the handle too
 		"trackdrop" => {
 			let keep_handle = arg(2, 0) == 1;
 			let mut mgr = mk_mgr(8);
@@ -1185,9 +1219,14 @@ fn rt_scenario(tok: &[&str], out: &mut Out, l: &str) {
 				std::thread::sleep(Duration::from_millis(2));
 				mgr.backend_mut().callback(16, 2);
 			}
+			// the removed track is destroyed here (the unused-resource queue is drained before the insert)
+			let other = mgr.add_sub_track(TrackBuilder::new()).unwrap();
 			if !wait_until(Duration::from_millis(arg(3, 400)), || probe.dropped.load(Ordering::SeqCst)) {
 				out.oracle_fail("decthread_thread_never_ends", format!("discarded_with_track threads=+{} {}", thread_count().saturating_sub(base), l));
+			} else if !wait_until(Duration::from_millis(1500), || thread_count() <= base) {
+				out.oracle_fail("decthread_thread_count_above_baseline", format!("discarded_with_track {}", l));
 			}
+			drop(other);
 			drop(h);
 			drop(mgr);
 		}
@@ -1204,10 +1243,15 @@ fn rt_scenario(tok: &[&str], out: &mut Out, l: &str) {
 			drop(h);
 			if !wait_until(Duration::from_millis(arg(2, 400)), || probe.dropped.load(Ordering::SeqCst)) {
 				out.oracle_fail("decthread_thread_never_ends", format!("discarded_with_manager threads=+{} {}", thread_count().saturating_sub(base), l));
+			} else if !wait_until(Duration::from_millis(1500), || thread_count() <= base) {
+				out.oracle_fail("decthread_thread_count_above_baseline", format!("discarded_with_manager {}", l));
 			}
 		}
-		// the decoder fails while the sound's track is paused (`process` is not called): nobody turns the
-		// error into Stopped and the thread spins on the failing decoder
+		// the decoder fails while the sound's track is paused. A paused track does not call `process` on its
+		// sounds, so the error is only turned into Stopped when the track resumes (every state change of a sound
+		// that needs `process` waits for that, a fade-out started by `stop()` as well) — but the decoder thread must
+		// not wait for it: it reports the error, ends and releases the decoder at once, and never calls the failing
+		// decoder again (before the repair it called it in a tight loop for as long as the pause lasted)
 		"errpaused" => {
 			let mut mgr = mk_mgr(8);
 			let mut track = mgr.add_sub_track(TrackBuilder::new()).unwrap();
@@ -1223,11 +1267,19 @@ fn rt_scenario(tok: &[&str], out: &mut Out, l: &str) {
 			let c0 = probe.calls();
 			std::thread::sleep(Duration::from_millis(30));
 			let c1 = probe.calls();
-			if h.state() != PlaybackState::Stopped {
-				out.oracle_fail("decthread_error_did_not_stop_sound", format!("paused_track {}", l));
+			if probe.errors.load(Ordering::SeqCst) == 0 {
+				out.oracle_fail("decthread_error_not_reached", l);
 			}
 			if c1 - c0 > 200 {
 				out.oracle_fail("decthread_busy_spin_after_error", format!("paused_track calls_in_30ms=many {}", l));
+			}
+			if probe.calls_after_error.load(Ordering::SeqCst) > 0 {
+				out.oracle_fail("decthread_decoder_called_after_error", format!("paused_track {} calls=many", l));
+			}
+			if !wait_until(Duration::from_millis(1500), || probe.dropped.load(Ordering::SeqCst)) {
+				out.oracle_fail("decthread_thread_never_ends", format!("failed_on_paused_track {}", l));
+			} else if !wait_until(Duration::from_millis(1500), || thread_count() <= base) {
+				out.oracle_fail("decthread_thread_count_above_baseline", format!("failed_on_paused_track {}", l));
 			}
 			if h.pop_error().is_none() {
 				out.oracle_fail("decthread_first_error_lost", l);
